@@ -466,7 +466,7 @@ func (b *Bridge) after(in *hub.Instance, g *bridgeGhost, op engine.Op, pre *view
 			case bk != "" && execd[bk]:
 				x.Where = "executed"
 				st.Count("transfers_executed", 1)
-			case was == "pool" && op.Kind == "Cancel":
+			case was == "pool" && (op.Kind == "Cancel" || op.Kind == "CancelUpper"):
 				x.Where = "refunded" // checked by cancelOracle
 			case (was == "pool" || releasedNow) && endBlock:
 				// expiry refund
